@@ -516,6 +516,18 @@ int main(int argc, char **argv)
             do_list("run", idx++, L, FEW);
         }
     }
+    // signed zeros: +0.0 and -0.0 compare equal but are different values ("scanned values equal the originals exactly"); constant and mixed runs
+    {
+        for(char k : {'f', 'd'}) for(int pat = 0; pat < 6; ++pat) for(int len = 5; len <= 7; ++len) for(int ctx = 0; ctx < 2; ++ctx) {
+            List L; if(ctx) L.push_back(pf::I(3));
+            for(int i = 0; i < len; ++i) {
+                bool neg = pat == 0 ? true : pat == 1 ? (i % 2 == 1) : pat == 2 ? (i % 2 == 0) : pat == 3 ? (i == len - 1) : pat == 4 ? (i == 0) : (i == 2);
+                L.push_back(k == 'f' ? pf::Fl(neg ? -0.0f : 0.0f) : pf::D(neg ? -0.0 : 0.0));
+            }
+            do_list("run", idx++, L, FEW);
+            do_list("run", idx++, List{pf::Arr(List(L.begin() + ctx, L.end()))}, FEW);
+        }
+    }
     // runs with large steps: 64-bit steps that are +-1 or 0 modulo 2^32 or do not fit 32 bits at all, 32-bit runs that cross zero and
     // span more than 2^31 (k*step does not fit although every member does); alone, behind a string, behind a different value of the type
     {
